@@ -711,6 +711,17 @@ struct Gen {
         }
         return KwIR{ c == 2 ? "WSEGSICD" : "WSEGAICD", { { w.name, seg(), r.pick(strs), r.pick(lens), st() } }, "" };
     }
+    // action bodies, property mode only (the model has no WELSPECS / WLIST '?' inside action bodies): keywords whose result
+    // records the ORDER in which '?' is expanded — WELSPECS '?' <group> (order of Group::wells()) and WLIST <list> NEW/ADD '?'
+    // (order of the list); it must be the WELSPECS definition order of the wells, not the alphabetical order of the match set
+    KwIR orderProbe() {
+        if (r.coin(1, 3)) { const bool exists = std::find(lists.begin(), lists.end(), "*L2") != lists.end(); if (!exists) lists.push_back("*L2");
+                            return KwIR{ "WLIST", { { "*L2", exists && r.coin() ? "ADD" : "NEW", "?" } }, "" }; }
+        const std::string grp = "G" + std::to_string(r.range(1, 4));
+        if (std::find(groups.begin(), groups.end(), grp) == groups.end()) groups.push_back(grp);
+        gwells.insert(grp);
+        return KwIR{ "WELSPECS", { { "?", grp, "*", "*" } }, "" };
+    }
     KwIR extra() {
         static const std::vector<std::pair<std::string, std::string>> xs = {
             { "RPTRST", "RPTRST\n BASIC=2 /\n" }, { "RPTSCHED", "RPTSCHED\n PRES SGAS /\n" }, { "TUNING", "TUNING\n 1 10 /\n/\n/\n" },
@@ -804,7 +815,7 @@ struct Gen {
             case 5: return wconinje(inAction && actionRole == 'I');
             case 6: return welopen(inAction);
             case 7: if (inAction) { if (r.coin(1, 3)) return compdat(true); continue; } return compdat();
-            case 8: if (inAction) { return gruptree(); } return welspecs();
+            case 8: if (inAction) { return extras ? orderProbe() : gruptree(); } return welspecs();
             case 9: return gruptree();
             case 10: return gefac();
             case 11: return compdat();
@@ -834,6 +845,7 @@ struct Gen {
                 else out.push_back(KwIR{ "WELPI", {}, "WELPI\n '" + w + "' " + std::to_string(r.range(5, 40)) + " /\n/\n" });
                 continue;
             }
+            if (extras && rich2 && r.coin(1, 5)) { out.push_back(orderProbe()); continue; }
             out.push_back(ordinary(true));
         }
         out.push_back(KwIR{ "ENDACTIO", {}, "" });
@@ -1705,6 +1717,14 @@ std::vector<KwIR> substBody(const std::vector<KwIR>& body, const std::vector<std
     for (auto k : body) {
         const bool wellKw = k.name == "WELOPEN" || k.name == "WCONPROD" || k.name == "WCONINJE" || k.name == "WELTARG" || k.name == "WEFAC" || k.name == "COMPDAT" || k.name == "WELSPECS" ||
                             k.name == "WECON" || k.name == "WTEST" || k.name == "COMPLUMP" || k.name == "WPIMULT";
+        if (k.name == "WLIST") {
+            // '?' among the well arguments: the matching wells, in the order '?' is expanded in
+            for (auto& r : k.recs) {
+                std::vector<std::string> f(r.begin(), r.begin() + std::min<size_t>(2, r.size()));
+                for (size_t i = 2; i < r.size(); ++i) { if (r[i] == "?") f.insert(f.end(), sortedWells.begin(), sortedWells.end()); else f.push_back(r[i]); }
+                r = f;
+            }
+        }
         if (wellKw) {
             std::vector<std::vector<std::string>> recs;
             for (auto& r : k.recs) {
@@ -1733,6 +1753,18 @@ int aprop(uint64_t seed, const std::string& tier, const std::string& outdir) {
         Real applied = build(deck);
         auto apps = chooseApps(rng, *base.sched, 3);
         if (apps.empty()) { stats["no-action"]++; continue; }
+        {
+            // WELSPECS '?' applied with an EMPTY match set creates a well literally named '?' in the real code (the pattern is
+            // taken for the name of a new well), which no inlined deck can express: not generated (design.d/C04.md)
+            bool skip = false;
+            for (auto& a : apps) if (a.wells.empty()) for (size_t i = 0; i < ks.size(); ++i) if (ks[i].name == "ACTIONX" && ks[i].recs[0][0] == a.action)
+                for (size_t j = i + 1; j < ks.size() && ks[j].name != "ENDACTIO"; ++j) {
+                    if (ks[j].name == "WELSPECS") for (auto& rc : ks[j].recs) if (rc[0] == "?") skip = true;
+                    // WLIST ... '?' with an empty match set throws (no well matches '?') where the inlined record without wells is accepted
+                    if (ks[j].name == "WLIST") for (auto& rc : ks[j].recs) for (size_t q3 = 2; q3 < rc.size(); ++q3) if (rc[q3] == "?") skip = true;
+                }
+            if (skip) { stats["order-probe-with-empty-match-set-not-applied"]++; continue; }
+        }
         // inline: after each application the deck is rebuilt with the substituted body before the time keyword closing block n
         std::vector<KwIR> cur = ks;
         bool inlineOk = true, perStep = false, connFull = false;
